@@ -156,6 +156,7 @@ class Registry:
         self.modules: list[str] = []  # modules whose classes are known
         self.realisers: dict[str, Callable] = {}
         self.known_mutable_fields: set[str] = set()
+        self.bounded_checks: list[dict] = []  # bounded native stand-ins for functions not under contract
 
     def contract(self, qualname: str, props=(), kind="kernel"):
         def deco(fn):
@@ -184,6 +185,11 @@ class Registry:
 
     def pure_external(self, qualname: str, result: str = "val"):
         self.pure_externals[qualname] = parse_spec(result)
+
+    def bounded_check(self, name: str, props, replayer: str, covers, bound: str):
+        """A bounded native stand-in (runtime checking of the property over an enumerated universe) for functions
+        that are not within the verifier's reach.  Labelled bounded in the evidence, never counted as proved."""
+        self.bounded_checks.append({"name": name, "props": list(props), "replayer": replayer, "covers": list(covers), "bound": bound})
 
     def lemma(self, name: str, props=()):
         def deco(fn):
